@@ -83,6 +83,9 @@ def families(tier):
         hs = [dict(bus='A', pat='R', name='hr', prog=[('recurse', 'A', mode, maxd)] + ([('pause',)] if extra else []))]
         hs.append(dict(bus='A', pat='X', name='hx', prog=[('ret', 0)]))
         add('c03.recursion', f'd{maxd}-{mode}-p{int(extra)}', ['A'], hs, [('disp', 'A', 'R', 'await')], [stall_actor], maxd=maxd)
+    # the grammar-generated corpus shared by the bus properties (vsched/gen.py), judged by this property's oracle
+    from .. import gen
+    out += gen.family('C03', tier, params=dict(leaf='gen'), timeouts=(None,), main_mode='await_root', allow_forward=False)
     return out
 
 
